@@ -55,7 +55,7 @@ def run(ctx):
         t = rand_tree(rng, 4, depth)
         cases.append({"kind": "roundtrip", "obj": "fiber", "via": "dict", "tree": t, "depth": depth})
         cases.append({"kind": "roundtrip", "obj": "fiber", "via": "yaml", "tree": t, "depth": depth})
-        cases.append({"kind": "roundtrip", "obj": "tensor", "via": "yaml", "tree": t, "depth": depth})
+        cases.append({"kind": "roundtrip", "obj": "tensor", "via": "yaml", "tree": t, "depth": depth, "loader": rng.choice(["fromYAMLfile", "fromYAMLfile", "ctor"])})
         d = rng.choice([5, 7])
         tn = rand_tree(rng, 4, depth, dflt=d, pz=0.3)
         for x in walk_leaves(tn):
